@@ -179,6 +179,12 @@ type WorldOpts struct {
 	Timeout    time.Duration
 	// MakeTarget, if set, builds the southbound target (instead of the recording device) once the bound schema client exists.
 	MakeTarget func(w *World) target.Target
+	// ValueTimestamp, if not 0, is put into the timestamp field of every typed value of the intents (valid input: the
+	// field is metadata, the datum is the same)
+	ValueTimestamp uint64
+	// ResyncOnProbe: before a probe operation the running store is rewritten the way a completed device sync rewrites
+	// it: the same paths and data, freshly encoded (no value timestamps)
+	ResyncOnProbe bool
 }
 
 // World is one fresh system instance: real datastore over a real cache instance and a recording device.
@@ -354,8 +360,36 @@ func (w *World) BuildIntent(i IntentSpec) (*sdcpb.TransactionIntent, error) {
 			return nil, fmt.Errorf("unknown fragment %q", i.Frag)
 		}
 		ti.Update = f.Updates()
+		if w.Opts.ValueTimestamp != 0 {
+			for _, u := range ti.Update {
+				if u.GetValue() != nil {
+					u.Value = proto.Clone(u.Value).(*sdcpb.TypedValue)
+					u.Value.Timestamp = w.Opts.ValueTimestamp
+				}
+			}
+		}
 	}
 	return ti, nil
+}
+
+// ResyncRunning rewrites every entry of the running (CONFIG) store with the same datum freshly encoded, as a
+// completed device sync does: paths and values stay, encoding details of the writer (value timestamps) go.
+func (w *World) ResyncRunning() error {
+	ctx := context.Background()
+	var upds []*cache.Update
+	for _, u := range w.Raw.Read(ctx, w.Name, &cache.Opts{Store: cachepb.Store_CONFIG}, [][]string{{}}, 0) {
+		tv, err := u.Value()
+		if err != nil {
+			return err
+		}
+		tv.Timestamp = 0
+		b, err := proto.Marshal(tv)
+		if err != nil {
+			return err
+		}
+		upds = append(upds, cache.NewUpdate(u.GetPath(), b, 0, "", 0))
+	}
+	return w.Raw.Modify(ctx, w.Name, &cache.Opts{Store: cachepb.Store_CONFIG}, nil, upds)
 }
 
 // Apply executes one op: TransactionSet followed by confirm / cancel.
